@@ -356,7 +356,19 @@ func (i InfixExpression) PrettyPrint(out *PrintState) *PrintState {
 	if i.Right == nil {
 		out.Print("nil")
 	} else {
+		// Binary operators are left associative: a right operand of the same precedence needs its parentheses
+		// (a-(b-c) is not a-b-c). Historical exception: a+(b+c) is printed a+b+c.
+		rightParen := false
+		if r, ok := i.Right.(*InfixExpression); ok && !out.AllParens {
+			rightParen = Precedences[r.Type()] == Precedences[i.Type()] && !(i.Type() == token.PLUS && r.Type() == token.PLUS)
+		}
+		if rightParen {
+			out.Print("(")
+		}
 		i.Right.PrettyPrint(out)
+		if rightParen {
+			out.Print(")")
+		}
 	}
 	if needParen {
 		out.Print(")")
